@@ -1375,6 +1375,8 @@ theorem tie_converters :
       ["v, ok := value.(map[string]any)", "converted := make(map[string]any, len(v))",
        "convertedItem, err := genericTypes[0].ConvertValue(item)", "converted[key] = convertedItem"] ∧
     Gen.Condition.listConvIfs = ["!ok", "err != nil"] ∧ Gen.Condition.mapConvIfs = ["!ok", "err != nil"] ∧
+    Gen.Condition.listConvRanges = ["index, item := range v"] ∧
+    Gen.Condition.mapConvRanges = ["key, item := range v"] ∧
     Gen.Condition.convertValueCalls = ["pt.typedParamConverter"] := by decide
 
 /-- `DecodeParameterType`: unknown type name, wrong number of generic types, recursive decode -/
